@@ -61,5 +61,20 @@ CHECKS = {
           "internal entities referenced in ATTRIBUTE values are substituted by libxml2 on read.",
   'technique': 'Coq proof over source-generated parser configuration + libxml2 option model; differential correspondence; canary oracle',
  },
+ 'C09': {
+  'text': "For every output protocol (SOAP 1.1/1.2, XmlDocument, JSON, YAML, MessagePack, msgpack-rpc, HttpRpc), chunked or not, "
+          "the WSGI response is handle_error applied to the first thing user code raises (listeners, method body, generator "
+          "result before/after its first item): a Fault is reported as itself with the documented status (413/404/405/401, "
+          "400 iff code is Client or Client.*, else 500; always 500 for SOAP) and round-trips code, message and nested detail; "
+          "any non-Fault exception yields the byte-identical constant Server/'Internal Error' fault (non-interference), and "
+          "the return value is never sent. Excluded and proved as such: HttpRpc carries no detail; XML-unrepresentable content "
+          "escapes; a chunked HttpRpc stream failing after its first chunk; the SOAP 1.2 client strips the message.",
+  'design_ref': 'DESIGN.md section 6 (C09)',
+  'note': TB + "19 theorems over a model interpreted over tables regenerated from error.py, _outbase.py, soap11.py, application.py "
+          "and server/wsgi.py on every run (class table, status chains, except-clause skeletons); 4 listed findings "
+          "(detail-lost, message-stripped, xml-unrepresentable escape, chunked streaming); byte level (lxml, json, yaml, "
+          "msgpack) trusted, the correspondence parses real bytes; which protocols serialise lazily is hand-written.",
+  'technique': 'Coq proof over a table-driven Gallina model; fail-closed ast translator (faultpipe); differential correspondence; byte-identity non-interference oracle',
+ },
 }
 NOT_APPLICABLE = {}
